@@ -72,7 +72,7 @@ def gen(r) -> Dict[str, Any]:
     # keep relative order of handlers of the same source stable after shuffling? not needed: order of subscribe calls
     # *is* the subscription order the oracle uses.
     return {"max_concurrent": mc, "sources": sources, "derived": nder, "subscriptions": subs, "jobs": [],
-            "stop_on_handler_exceptions": False}
+            "stop_on_handler_exceptions": False, "tz_minutes": r.choice([[0], [0], [0, -300, 330], [540, -480, 60]])}
 
 
 def evaluate(sc: Dict[str, Any], res: ShardResult) -> bt.BtRun:
